@@ -50,7 +50,7 @@ func stripChangeTime(m proto.Message, keepPresence bool) proto.Message {
 	if m == nil || !m.ProtoReflect().IsValid() {
 		return m
 	}
-	c := proto.Clone(m)
+	c := cloneExact(m)
 	walk(c.ProtoReflect(), "", func(mm pref.Message, _ string) {
 		if mm.Descriptor().Name() != "Change" {
 			return
@@ -96,7 +96,7 @@ func blank(m proto.Message, bf, bt, bd bool) (proto.Message, leaves) {
 	if m == nil || !m.ProtoReflect().IsValid() {
 		return m, lv
 	}
-	c := proto.Clone(m)
+	c := cloneExact(m)
 	one := func(fd pref.FieldDescriptor) pref.Value {
 		if fd.Kind() == pref.FloatKind {
 			return pref.ValueOfFloat32(1)
@@ -234,4 +234,18 @@ func withinOracle(a, b *big.Int, d int64) bool {
 	diff := new(big.Int).Sub(a, b)
 	diff.Abs(diff)
 	return diff.Cmp(big.NewInt(d)) <= 0
+}
+
+// cloneExact copies a valid message through its wire form. Unlike proto.Clone (whose merge skips
+// implicit-presence floats that compare == 0) it keeps a populated -0.
+func cloneExact(m proto.Message) proto.Message {
+	b, err := proto.MarshalOptions{Deterministic: true}.Marshal(m)
+	if err != nil {
+		panic(err)
+	}
+	c := m.ProtoReflect().New().Interface()
+	if err := proto.Unmarshal(b, c); err != nil {
+		panic(err)
+	}
+	return c
 }
